@@ -45,7 +45,7 @@ class export_string_range:
     """At the head of the body loop: from_stage is the stage of the barline that opens from_measure (0 when no start is given) and
     to_stage is the stage of the barline that closes to_measure when a later measure exists, otherwise the last stage -- for every
     number of stages and measures (the loops that rebuild the preamble are over-approximated: they do not assign these two locals)."""
-    cut = 'for stage in range(from_stage, to_stage + 1)'
+    cut = 'for stage in range('
     witness_via = 'measure_ranges_partition'
 
     def inputs(g):
